@@ -156,6 +156,7 @@ class Check(object):
         monitor_fail = [f for f in ex.failures if f.kind == 'monitor']
         corr_fail = [f for f in ex.failures if f.kind != 'monitor']
         obligations.append(('correspondence:model-vs-implementation', not corr_fail))
+        mon_idx = len(obligations)
         obligations.append(('monitor:implementation-traces', not monitor_fail))
 
         searched = False
@@ -203,6 +204,9 @@ class Check(object):
             lines.append('VIOLATION property=%s replay=%s no-failing-input-found' % (prop, path))
             violations = max(1, len(corr_fail))
 
+        # a rejected trace that matches a listed (open) known finding is accounted for by that finding's
+        # `_partial` theorem + proved counterexample; the monitor obligation is "no UNLISTED rejection"
+        obligations[mon_idx] = ('monitor:implementation-traces (no unlisted rejection)', not unlisted)
         n_obl = len(obligations)
         n_dis = sum(1 for _n, d in obligations if d)
         coverage = {
